@@ -5,13 +5,19 @@ step.pre (never step an ended episode, never exceed the remaining budget),
 post.budget, post.episodes, post.accounting (reported count == start + executed
 on every exit path), update.pre (documented warm-up condition) - proved with
 inductive invariants for all budgets, starts, episode patterns.
+Scheduler / selector part (contracts/C11_sched.py): the multi-task schedulers'
+per-task step totals sum to the steps executed within the budget (train_st is a
+parameter with the per-routine contract proved above), task ids are valid,
+selection and feedback alternate, discounted UCB plays every arm initially and
+an arg-max of discounted mean + exploration bonus afterwards.
 """
+from . import C11_sched as _sched
 from . import loops
 
 PROPERTY = "C11"
 LEVEL = "proof"
-TASKS = loops.tasks_for({"C11"})
-TRUSTED = ["Gymnasium Env API contract (reset/step typestate, pyvc/lib/gym_model.py)"] + loops.EXTRA_TRUSTED
-ASSUMPTIONS = ["update routines are identified by the call sites of the (stubbed) train-step / actor-update / temperature-update functions"] + loops.EXTRA_ASSUMPTIONS
-NOT_COVERED = [] + loops.EXTRA_NOT_COVERED
-REPLAY = loops.REPLAY  # loops_native (replay-buffer family) / loops_extra_native (tabular, on-policy collectors, rollout helper)
+TASKS = loops.tasks_for({"C11"}) + _sched.TASKS
+TRUSTED = ["Gymnasium Env API contract (reset/step typestate, pyvc/lib/gym_model.py)"] + loops.EXTRA_TRUSTED + list(_sched.TRUSTED)
+ASSUMPTIONS = ["update routines are identified by the call sites of the (stubbed) train-step / actor-update / temperature-update functions"] + loops.EXTRA_ASSUMPTIONS + list(_sched.ASSUMPTIONS)
+NOT_COVERED = [] + loops.EXTRA_NOT_COVERED + list(_sched.NOT_COVERED)
+REPLAY = dict(loops.REPLAY, **_sched.REPLAY)  # loops_native (replay-buffer family) / loops_extra_native (tabular, on-policy collectors, rollout helper)
